@@ -82,4 +82,68 @@ LabelSetsMatch(ms, lsets) == IF lsets = <<>> THEN TRUE ELSE SomeLabelSetMatches(
 StoreMatches(st, q) ==
     IF q.qmin > st.smax \/ q.qmax < st.smin THEN FALSE
     ELSE LabelSetsMatch(q.matchers, st.lsets)
+
+(* ======================= endpoint set in front of the proxy ======================= *)
+(* (pkg/query/endpointset.go: EndpointSet.Update, getTimedOutRefs, GetStoreClients.)               *)
+(* A scenario is a sequence of rounds.  In a round the environment is set (per endpoint e:         *)
+(* env[e] = [inspec, up, m]: listed in the endpoint specs, its Info call succeeds, it advertises  *)
+(* metas[m]), the clock advances by dt, EndpointSet.Update runs, then one query is sent through a *)
+(* ProxyStore over GetStoreClients().  strict[e] is fixed per scenario.                            *)
+FarPast == 0 - 1000000
+FarFuture == 1000000
+AnyStore == [lsets |-> <<>>, smin |-> FarPast, smax |-> FarFuture]   \* nothing advertised: may hold anything
+
+(* ---- property level ---- *)
+(* clients = the stores the endpoint set offers after the round's Update, as a sequence of        *)
+(* [e, lsets, smin, smax].                                                                        *)
+ClientEps(clients) == { clients[i].e : i \in DOMAIN clients }
+ClientOf(clients, e) == CHOOSE c \in SPRng(clients) : c.e = e
+NonEmpty(lsets) == { ls \in SPRng(lsets) : ls # <<>> }        \* an empty label set is not an advertisement
+SameAdvert(c, st) == NonEmpty(c.lsets) = NonEmpty(st.lsets) /\ c.smin = st.smin /\ c.smax = st.smax
+UpdateClauses(strict, metas, env, clients) ==
+    (* a discovered store that answers must be offered for querying ... *)
+    (IF \A e \in DOMAIN env : (env[e].inspec /\ env[e].up) => e \in ClientEps(clients)
+       THEN {} ELSE {"healthy-endpoint-offered"})
+    \cup
+    (* ... with what it advertises now (pruning on an outdated advertisement skips a store that   *)
+    (* holds matching data)                                                                        *)
+    (IF \A e \in DOMAIN env : (env[e].inspec /\ env[e].up /\ e \in ClientEps(clients))
+                                  => SameAdvert(ClientOf(clients, e), metas[env[e].m])
+       THEN {} ELSE {"advertisement-refreshed"})
+    \cup
+    (* a strict endpoint is never dropped while it is listed *)
+    (IF \A e \in DOMAIN env : (env[e].inspec /\ strict[e]) => e \in ClientEps(clients)
+       THEN {} ELSE {"strict-endpoint-kept"})
+
+(* advs[e] = the set of advertisements endpoint e has given in successful refreshes so far.       *)
+(* A store that answered the last refresh must be contacted if it may hold matching data per its  *)
+(* current advertisement; a strict store that did not answer must be contacted unless every       *)
+(* advertisement it ever gave excludes matching data (never advertised: always).                  *)
+MustContact(strict, metas, env, advs, e, q) ==
+    /\ env[e].inspec
+    /\ IF env[e].up THEN MayHoldMatchingData(metas[env[e].m], q)
+       ELSE strict[e] /\ \A m \in advs[e] : MayHoldMatchingData(metas[m], q)
+QueryClauses(strict, metas, env, advs, q, contacted) ==
+    IF \A e \in DOMAIN env : MustContact(strict, metas, env, advs, e, q) => e \in SPRng(contacted)
+      THEN {} ELSE {"skipped-store-holds-no-matching-data"}
+AdvsAfter(env, advs) == [e \in DOMAIN env |-> IF env[e].inspec /\ env[e].up THEN advs[e] \cup {env[e].m} ELSE advs[e]]
+
+(* ---- algorithm level: EndpointSet.Update as a function on the refs ---- *)
+(* ref = [present, created, lastcheck (-1 = zero time: never), err, meta (0 = none: max range)]   *)
+NoRef == [present |-> FALSE, created |-> 0, lastcheck |-> 0 - 1, err |-> FALSE, meta |-> 0]
+RefAfterUpdate(ref, strictE, envE, now, T) ==
+    IF ~envE.inspec THEN NoRef                                       \* not listed any more: stale, closed
+    ELSE IF ref.present
+      THEN LET r == IF envE.up THEN [ref EXCEPT !.meta = envE.m, !.lastcheck = now, !.err = FALSE]
+                    ELSE [ref EXCEPT !.err = TRUE]                    \* metadata of the previous state is kept
+               timedOut == ~strictE /\ now - r.created >= T
+                           /\ (r.lastcheck < 0 \/ now - r.lastcheck >= T)
+           IN IF timedOut THEN NoRef ELSE r
+    ELSE IF envE.up THEN [present |-> TRUE, created |-> now, lastcheck |-> now, err |-> FALSE, meta |-> envE.m]
+    ELSE IF strictE THEN [present |-> TRUE, created |-> now, lastcheck |-> 0 - 1, err |-> TRUE, meta |-> 0]
+    ELSE NoRef                                                       \* not queryable: closed at once
+Queryable(ref, strictE) == ref.present /\ (strictE \/ ~ref.err)
+RefStore(ref, metas) == IF ref.meta = 0 THEN AnyStore ELSE metas[ref.meta]
+AlgoClients(refs, strict) == { e \in DOMAIN refs : Queryable(refs[e], strict[e]) }
+AlgoContacted(refs, strict, metas, q) == { e \in AlgoClients(refs, strict) : StoreMatches(RefStore(refs[e], metas), q) }
 =============================================================================
